@@ -49,8 +49,10 @@ class SchemaField:
         Raises:
             FIXMessageError: raised if validation failed
         """
-        assert isinstance(value, str), "value must be a string"
-        assert value, "empty value"
+        if not isinstance(value, str):
+            raise FIXMessageError(f"{self} value must be a string, got {type(value)}")
+        if not value:
+            raise FIXMessageError(f"{self} validation error: empty value")
 
         if self.values:
             if value not in self.values:
@@ -77,7 +79,7 @@ class SchemaField:
                 err = SchemaField._validate_value_number(
                     value, float, no_nonfinite=True
                 )
-            elif t in {"STRING", "MULTIPLESTRINGVALUE"}:
+            elif t in {"STRING", "MULTIPLESTRINGVALUE", "MULTIPLEVALUESTRING"}:
                 err = SchemaField._validate_value_str(value)
             elif t in {"CHAR"}:
                 err = SchemaField._validate_value_str(value, max_len=1)
@@ -126,9 +128,15 @@ class SchemaField:
 
         try:
             dtm.datetime.strptime(value, format)
-            return None  # all good
         except Exception as exc:
             return str(exc)
+
+        # strptime() is too tolerant (unpadded parts, spaces, non ASCII digits)
+        layout = re.escape(format).replace("%Y", "[0-9]{4}").replace("%f", "[0-9]{1,6}")
+        layout = re.sub("%[mdHMS]", "[0-9]{2}", layout)
+        if not re.fullmatch(layout, value, re.ASCII):
+            return f"value does not match fixed layout {format}"
+        return None  # all good
 
     @staticmethod
     def _validate_value_monthyear(value):
@@ -199,6 +207,10 @@ class SchemaField:
                 raise ValueError("not isfinite number")
             if num_range and not (v >= num_range[0] and v <= num_range[1]):
                 raise ValueError(f"out of range {num_range}")
+            # int() / float() are too tolerant (underscores, spaces, '+', exponent, etc.)
+            lexical = r"-?[0-9]+" if num_type is int else r"-?([0-9]+\.?[0-9]*|\.[0-9]+)"
+            if not re.fullmatch(lexical, value, re.ASCII):
+                raise ValueError("not a FIX number literal")
             # all good
             return None
         except ValueError as exc:
